@@ -37,6 +37,7 @@ pub fn lockstep(
     registered: &std::collections::BTreeSet<String>,
     skip: &dyn Fn(&str) -> bool,
 ) -> Result<LockResult, Fail> {
+    crate::supervise::journal_program(prop, init, max_steps, "step");
     let (mut real, _) = init.build();
     // start from the snapshot of the built state (graph node ids are the real ones there)
     let mut cur = StateSpec::snapshot(&real);
